@@ -3,8 +3,10 @@ package explore
 import (
 	"fmt"
 	"os"
+	"runtime"
 	"runtime/debug"
 	"sort"
+	"strconv"
 	"strings"
 	"sync"
 	"time"
@@ -199,10 +201,10 @@ func Search(rep *Report, cfg SearchCfg, seeds []Seed) *Graph {
 	var nextLayer []item
 	for depth := 0; depth <= cfg.D; depth++ {
 		for len(frontier) > 0 {
-			if time.Now().After(cfg.Deadline) || (cfg.MaxStates > 0 && len(g.Nodes) > cfg.MaxStates) {
+			if time.Now().After(cfg.Deadline) || (cfg.MaxStates > 0 && len(g.Nodes) > cfg.MaxStates) || memoryExhausted() {
 				g.Complete = false
 				rep.Exhaustive = false
-				rep.Cap = fmt.Sprintf("search stopped at deviation depth %d with %d states discovered and %d unexpanded (deadline or state cap); convergence verdicts are given only for fully expanded closures", depth, len(g.Nodes), len(frontier))
+				rep.Cap = fmt.Sprintf("search stopped at deviation depth %d with %d states discovered and %d unexpanded (deadline, state cap or memory guard); convergence verdicts are given only for fully expanded closures", depth, len(g.Nodes), len(frontier))
 				break
 			}
 			{ // a node may have been queued twice (deviation successor re-found by progress)
@@ -219,7 +221,12 @@ func Search(rep *Report, cfg SearchCfg, seeds []Seed) *Graph {
 					break
 				}
 			}
-			// expand the frontier in parallel
+			// expand the frontier in parallel, at most a batch at a time so that the memory guard gets a say
+			var rest []item
+			if len(frontier) > 32768 {
+				rest = append(rest, frontier[32768:]...)
+				frontier = frontier[:32768]
+			}
 			results := make([]*expansion, len(frontier))
 			var wg sync.WaitGroup
 			chunk := (len(frontier) + nw - 1) / nw
@@ -275,7 +282,7 @@ func Search(rep *Report, cfg SearchCfg, seeds []Seed) *Graph {
 					}
 				}
 			}
-			frontier = next
+			frontier = append(rest, next...)
 		}
 		if !g.Complete {
 			break
@@ -652,4 +659,18 @@ func (g *Graph) CheckRecovery(rep *Report, only func(label string) bool, envChan
 		}
 	}
 	return
+}
+
+// memoryExhausted is the memory guard of the search: the sandbox has no
+// memory limit and an out-of-memory kill is unrecoverable, so a search stops
+// cleanly (reported as not exhaustive) once the heap passes VERIF_MEM_GB
+// (default 16) gigabytes.
+func memoryExhausted() bool {
+	limit := 16.0
+	if v, err := strconv.ParseFloat(os.Getenv("VERIF_MEM_GB"), 64); err == nil && v > 0 {
+		limit = v
+	}
+	var m runtime.MemStats
+	runtime.ReadMemStats(&m)
+	return float64(m.HeapAlloc) > limit*(1<<30)
 }
